@@ -29,7 +29,10 @@ RULE = ("primitives: every primitive class on boundary pools (length mod 8 in 0.
         "constructor arguments dropped (exhaustive when <= tier bound), unpopulated arguments filled, leaf values "
         "replaced by boundary values, list elements dropped/duplicated; each instance under KMIP 1.0,1.1,1.2,1.3,1.4,2.0: "
         "encode, decode with a fresh instance, no residue, re-encode == bytes, structural comparison (not __eq__), "
-        "and one shared object encoded under the versions up and down against fresh-copy encodings.  "
+        "and one shared object encoded under the versions up and down against fresh-copy encodings.  Schema layer "
+        "(M3): for every class of the Lean schema table, real encodings and their child-level neighbours (child "
+        "dropped / duplicated / moved / re-typed within a layout-compatible type / a foreign primitive child inserted) "
+        "are given to the class's reader and to Lean decodeS: same accept/reject and same re-encode stability.  "
         "distinct_nontrivial = distinct (class, version, presence mask of fields, length mod 8) that encoded, plus "
         "distinct (primitive class, value) that encoded, plus distinct accepted mutated byte strings.")
 ASSUMPTIONS = [
